@@ -53,11 +53,11 @@ example : ∃ a, a ∈ autGroupFrom exG (init exG) ∧ ∀ v, v < exG.n → col 
 
 /-- `aut_iff_leaf` with vertex classes: for any leaf `ℓ₀` of the tree started from the class colouring, γ is a
 class-preserving automorphism of `g` if and only if there is a leaf `ℓ` with the same certificate and `ℓ ∘ γ = ℓ₀`. -/
-theorem aut_iff_leaf_classes {g : G} (hg : WF g) (k : Nat) (cls : Nat → Nat) {l0 : Array Nat}
+theorem aut_iff_leaf_classes {g : G} (hg : WF g) {k : Nat} (hk : 1 ≤ k) (cls : Nat → Nat) {l0 : Array Nat}
     (h0 : l0 ∈ allLeaves g (initSt g k cls)) {γ : Nat → Nat} (hγ : ∀ v, v < g.n → γ v < g.n) :
     ((∃ τ, Relabel g g γ τ) ∧ ∀ v, v < g.n → cls (γ v) = cls v) ↔
       ∃ l, l ∈ allLeaves g (initSt g k cls) ∧ cert g l = cert g l0 ∧ ∀ v, v < g.n → col l (γ v) = col l0 v := by
-  have hw : (initSt g k cls).work ≠ [] := by simp [initSt]
+  have hw : (initSt g k cls).work ≠ [] := initSt_work g hk cls
   constructor
   · rintro ⟨⟨τ, R⟩, hcls⟩
     exact leaf_of_aut R (initSt_rel R k hcls) h0
@@ -75,14 +75,14 @@ theorem aut_iff_leaf_classes {g : G} (hg : WF g) (k : Nat) (cls : Nat → Nat) {
 example : ∀ l0 ∈ allLeaves exG (initSt exG 2 (fun v => if v = 1 then 0 else 1)),
     ∃ l, l ∈ allLeaves exG (initSt exG 2 (fun v => if v = 1 then 0 else 1)) ∧ cert exG l = cert exG l0 ∧
       ∀ v, v < exG.n → col l (exγ v) = col l0 v :=
-  fun _ h0 => (aut_iff_leaf_classes exG_wf 2 _ h0 (fun v hv => by show 2 - v < 3; omega)).1
+  fun _ h0 => (aut_iff_leaf_classes exG_wf (k := 2) (by decide) _ h0 (fun v hv => by show 2 - v < 3; omega)).1
     ⟨⟨exγ, exAut⟩, by intro v hv; have : v < 3 := hv; interval_cases v <;> simp [exγ]⟩
 
 /-- the automorphisms in the executable list preserve the vertex classes (with `autGroup_sound` and
 `autGroup_complete`: with classes the list is exactly the group of class-preserving automorphisms) -/
-theorem autGroup_classes {g : G} (hg : WF g) (k : Nat) (cls : Nat → Nat) {a : Array Nat}
+theorem autGroup_classes {g : G} (hg : WF g) {k : Nat} (hk : 1 ≤ k) (cls : Nat → Nat) {a : Array Nat}
     (ha : a ∈ autGroupFrom g (initSt g k cls)) {v : Nat} (hv : v < g.n) (hav : col a v < g.n) : cls (col a v) = cls v := by
-  have := autGroupFrom_classes hg (by simp [initSt]) ha hv
+  have := autGroupFrom_classes hg (initSt_work g hk cls) ha hv
   have e1 : col (initSt g k cls).c (col a v) = cls (col a v) := col_tab _ hav
   have e2 : col (initSt g k cls).c v = cls v := col_tab _ hv
   rw [e1, e2] at this
@@ -90,7 +90,7 @@ theorem autGroup_classes {g : G} (hg : WF g) (k : Nat) (cls : Nat → Nat) {a : 
 
 example : ∀ a ∈ autGroupFrom exG (initSt exG 2 (fun v => if v = 1 then 0 else 1)), ∀ v, v < exG.n → col a v < exG.n →
     (fun v => if v = 1 then 0 else 1) (col a v) = (fun v => if v = 1 then 0 else 1 : Nat → Nat) v :=
-  fun _ ha _ hv hav => autGroup_classes exG_wf 2 _ ha hv hav
+  fun _ ha _ hv hav => autGroup_classes exG_wf (k := 2) (by decide) _ ha hv hav
 
 /-! ### soundness of the executable checkers of `Mamba/Spec/Aut.lean`
 
